@@ -159,6 +159,11 @@ pub fn scratch_file(name: &str, content: &str) -> String {
 }
 
 pub fn run_tx3c_with(src: &str, tag: &str, extra: &[String]) -> Result<Vec<u8>, String> {
+    run_tx3c_over(src, tag, extra, None)
+}
+
+/// like `run_tx3c_with`; `existing` = what the output path holds before the build (a previous, longer interface file)
+pub fn run_tx3c_over(src: &str, tag: &str, extra: &[String], existing: Option<&[u8]>) -> Result<Vec<u8>, String> {
     if !std::path::Path::new(TX3C).exists() {
         panic!("harness: {TX3C} is missing (run ./check --build)");
     }
@@ -166,6 +171,9 @@ pub fn run_tx3c_with(src: &str, tag: &str, extra: &[String]) -> Result<Vec<u8>, 
     let src_path = dir.join(format!("{tag}.tx3"));
     let out_path = dir.join(format!("{tag}.tii"));
     let _ = std::fs::remove_file(&out_path);
+    if let Some(bytes) = existing {
+        std::fs::write(&out_path, bytes).map_err(|e| e.to_string())?;
+    }
     std::fs::write(&src_path, src).map_err(|e| e.to_string())?;
     let out = std::process::Command::new(TX3C)
         .arg("build")
